@@ -17,7 +17,7 @@ type C03 struct {
 	bought  bool
 }
 
-func init() { RegisterChecker("C03", func() Checker { return &C03{signers: map[string]bool{}} }) }
+func init()               { RegisterChecker("C03", func() Checker { return &C03{signers: map[string]bool{}} }) }
 func (c *C03) ID() string { return "C03" }
 
 func (c *C03) AfterTx(w *World, t *TxCtx) {
